@@ -130,7 +130,17 @@ pub enum Op {
     /// exact-in swap whose budget is the gross-up of the exact curve cost from the current price to `target` at the pool's current
     /// liquidity and fee rate, plus `delta` units: the budget's net part equals / just misses / just exceeds what the step to that
     /// price costs.  `with_limit`: the same price is also the price limit.
-    SwapExact { trader: u8, a_to_b: bool, target: LimitSel, delta: i8, with_limit: bool, v2: bool },
+    SwapExact {
+        trader: u8,
+        a_to_b: bool,
+        target: LimitSel,
+        delta: i8,
+        with_limit: bool,
+        v2: bool,
+        /// exact-OUT instead: the amount asked for is the exact curve output (rounded down) of the move to `target`, plus `delta`
+        #[serde(default)]
+        exact_out: bool,
+    },
     UpdateFees { pos: u16 },
     CollectFees { pos: u16, v2: bool },
     CollectProtocolFees { v2: bool },
@@ -582,7 +592,7 @@ impl Hist {
             let forced = match (**inner).clone() {
                 Op::Swap { trader, a_to_b, exact_in, amount, limit, .. } => Op::Swap { trader, a_to_b, exact_in, amount, limit, v2: true },
                 Op::SwapBack { trader, exact_in, delta, .. } => Op::SwapBack { trader, exact_in, delta, v2: true },
-                Op::SwapExact { trader, a_to_b, target, delta, with_limit, .. } => Op::SwapExact { trader, a_to_b, target, delta, with_limit, v2: true },
+                Op::SwapExact { trader, a_to_b, target, delta, with_limit, exact_out, .. } => Op::SwapExact { trader, a_to_b, target, delta, with_limit, v2: true, exact_out },
                 o => return self.exec(&o),
             };
             let pk = self.w.pools[self.pool].key;
@@ -632,7 +642,7 @@ impl Hist {
                 Op::Decrease { pos, amount, v2: false } => Some(Op::Decrease { pos, amount, v2: true }),
                 Op::Swap { trader, a_to_b, exact_in, amount, limit, v2: false } => Some(Op::Swap { trader, a_to_b, exact_in, amount, limit, v2: true }),
                 Op::SwapBack { trader, exact_in, delta, v2: false } => Some(Op::SwapBack { trader, exact_in, delta, v2: true }),
-                Op::SwapExact { trader, a_to_b, target, delta, with_limit, v2: false } => Some(Op::SwapExact { trader, a_to_b, target, delta, with_limit, v2: true }),
+                Op::SwapExact { trader, a_to_b, target, delta, with_limit, v2: false, exact_out } => Some(Op::SwapExact { trader, a_to_b, target, delta, with_limit, v2: true, exact_out }),
                 Op::CollectFees { pos, v2: false } => Some(Op::CollectFees { pos, v2: true }),
                 Op::CollectProtocolFees { v2: false } => Some(Op::CollectProtocolFees { v2: true }),
                 _ => None,
@@ -752,7 +762,7 @@ impl Hist {
                 res.swap = Some(sp);
                 ix
             }
-            Op::SwapExact { trader, a_to_b, target, delta, with_limit, v2 } => {
+            Op::SwapExact { trader, a_to_b, target, delta, with_limit, v2, exact_out } => {
                 let u = self.traders[*trader as usize % self.traders.len()];
                 let st = self.w.pool_state(self.pool);
                 let p1 = self.resolve_limit(target, *a_to_b);
@@ -764,10 +774,15 @@ impl Hist {
                 let rate = st.fee_rate as u32;
                 // smallest gross amount whose part net of the fee (floor) covers the cost
                 let gross = crate::model::ceil_div(&(cost * 1_000_000u32), &num_bigint::BigUint::from(1_000_000u32 - rate.min(999_999)));
-                let Some(gross) = crate::model::to_u64(&gross) else { return res };
+                let Some(mut gross) = crate::model::to_u64(&gross) else { return res };
+                if *exact_out {
+                    let out = if *a_to_b { crate::model::amt_b(l, p1.min(p0), p1.max(p0), false) } else { crate::model::amt_a(l, p1.min(p0), p1.max(p0), false) };
+                    let Some(out) = crate::model::to_u64(&out) else { return res };
+                    gross = out;
+                }
                 let amount = (gross as i128 + *delta as i128).clamp(0, u64::MAX as i128) as u64;
                 res.user = Some(u);
-                let sp = SwapParams { amount, threshold: SwapParams::neutral_threshold(true), sqrt_price_limit: if *with_limit { p1 } else { 0 }, exact_in: true, a_to_b: *a_to_b };
+                let sp = SwapParams { amount, threshold: SwapParams::neutral_threshold(!*exact_out), sqrt_price_limit: if *with_limit { p1 } else { 0 }, exact_in: !*exact_out, a_to_b: *a_to_b };
                 let ix = if *v2 { self.w.ix_swap_v2(self.pool, u, &sp) } else { self.w.ix_swap(self.pool, u, &sp) };
                 res.swap = Some(sp);
                 ix
@@ -1100,8 +1115,8 @@ pub fn swap_op() -> BoxedStrategy<Op> {
 
 pub fn swap_exact_op() -> BoxedStrategy<Op> {
     let target = prop_oneof![4 => (0u8..2).prop_map(LimitSel::InitTick), 2 => (0u16..3).prop_map(LimitSel::UsableTick), 1 => gen::bits_u128(70).prop_map(LimitSel::Offset)];
-    (0u8..2, any::<bool>(), target, -2i8..=2, any::<bool>(), any::<bool>())
-        .prop_map(|(trader, a_to_b, target, delta, with_limit, v2)| Op::SwapExact { trader, a_to_b, target, delta, with_limit, v2 })
+    (0u8..2, any::<bool>(), target, -2i8..=2, any::<bool>(), any::<bool>(), prop_oneof![2 => Just(false), 1 => Just(true)])
+        .prop_map(|(trader, a_to_b, target, delta, with_limit, v2, exact_out)| Op::SwapExact { trader, a_to_b, target, delta, with_limit, v2, exact_out })
         .boxed()
 }
 
